@@ -102,6 +102,8 @@ func runC09(c *core.Ctx, r *core.Reporter) {
 	c09rel(c, r)
 	c09sub(c, r)
 	c09strk(c, r)
+	c09okclobber(c, r)
+	c09pairs(c, r)
 	c09fmt(c, r)
 	c09div(c, r)
 	c09assert(c, r)
